@@ -364,3 +364,83 @@ def r_expnum(prog, tier):
                   'the root is not (unconditionally, afterwards) numbered 0', construct='num-root',
                   line=f.node.lineno))
     return obs, {}
+
+
+# ------------------------------------------------------------------------------------ R-NAV
+
+def r_nav(prog, tier):
+    """Siblings are the neighbours at offset +1 / -1 in the ordered child list; dominance() is the
+    node followed by its chain of parents."""
+    obs = []
+    for nm, want in (('right_sibling', 1), ('left_sibling', -1)):
+        f = prog.func('trees', nm)
+        cfg = f.cfg
+        t = f.params[0]
+        loops = [n for n in cfg.eval_nodes() if n.kind == 'iter']
+        ok = False
+        why = 'loop over the ordered siblings not found'
+        for lp in loops:
+            it = lp.ast.iter
+            if not (isinstance(it, ast.Call) and unparse(it.func) == 'enumerate' and it.args
+                    and isinstance(lp.ast.target, ast.Tuple) and len(lp.ast.target.elts) == 2):
+                continue
+            src = it.args[0]
+            start = 0
+            lst = None
+            if isinstance(src, ast.Subscript) and isinstance(src.slice, ast.Slice) and isinstance(src.value, ast.Name):
+                lst = src.value.id
+                lo = src.slice.lower
+                start = lo.value if isinstance(lo, ast.Constant) else (0 if lo is None else None)
+            elif isinstance(src, ast.Name):
+                lst = src.id
+            iv, ev = [unparse(x) for x in lp.ast.target.elts]
+            for r in [n for n in cfg.eval_nodes() if n.kind == 'stmt' and isinstance(n.ast, ast.Return) and lp.id in n.loops]:
+                facts = [x[0] for x in facts_at(cfg, r.id) if lp.id in cfg.nodes[x[1]].loops]
+                match = ('cmp', ev, '==', t) in facts or ('cmp', t, '==', ev) in facts
+                v = r.ast.value
+                k = None
+                if isinstance(v, ast.Subscript) and unparse(v.value) == lst:
+                    s = v.slice
+                    if unparse(s) == iv:
+                        k = 0
+                    elif isinstance(s, ast.BinOp) and unparse(s.left) == iv and isinstance(s.right, ast.Constant):
+                        k = s.right.value if isinstance(s.op, ast.Add) else -s.right.value
+                if match and k is not None and start is not None:
+                    off = k - start
+                    ok = off == want
+                    why = 'returns %s[%s%+d] for the element found at slice offset %d: neighbour offset %+d' \
+                          % (lst, iv, k, start, off)
+        lstdef_ok = any(isinstance(n, ast.Assign) and isinstance(n.value, ast.Call)
+                        and prog.callee(n.value, f) == ('trees', 'children')
+                        and unparse(n.value.args[0]) == '%s.parent' % t for n in walk_own(f.node))
+        obs.append(Ob('R-NAV', f.fq, '%s returns the neighbour at offset %+d in the ordered children of the parent'
+                      % (nm, want), ok and lstdef_ok, why, construct='nav:' + nm, line=f.node.lineno))
+        rootn = [n for n in cfg.eval_nodes() if n.kind == 'stmt' and isinstance(n.ast, ast.Return)
+                 and isinstance(n.ast.value, ast.Constant) and n.ast.value.value is None]
+        okn = any(('none', '%s.parent' % t, True) in [x[0] for x in facts_at(cfg, r.id)] for r in rootn) and \
+            any(not r.loops and cfg.dominates(loops[0].id, r.id) for r in rootn if loops)
+        obs.append(Ob('R-NAV', f.fq, '%s of the root, and of the outermost child, is None' % nm, okn,
+                      'None without parent and after an unsuccessful scan' if okn else 'missing None result',
+                      construct='nav-none:' + nm, line=f.node.lineno, nontrivial=False))
+    f = prog.func('trees', 'dominance')
+    cfg = f.cfg
+    t = f.params[0]
+    ys = [n for n in cfg.eval_nodes() if n.kind == 'stmt' and isinstance(n.ast, ast.Expr)
+          and isinstance(n.ast.value, ast.Yield)]
+    first = [y for y in ys if not y.loops]
+    inloop = [y for y in ys if y.loops]
+    ok = False
+    why = 'shape not recognised'
+    if len(first) == 1 and len(inloop) == 1:
+        v0 = unparse(first[0].ast.value.value)
+        d0 = v0 == t or any(isinstance(v, ast.AST) and unparse(v) == t for (_, v) in name_defs(f, v0))
+        w = cfg.nodes[inloop[0].loops[-1]]
+        cur = unparse(inloop[0].ast.value.value)
+        climb = w.kind == 'test' and norm_test(w.ast, True) == ('none', '%s.parent' % cur, False) and any(
+            n.kind == 'stmt' and unparse(n.ast) == '%s = %s.parent' % (cur, cur) and cfg.in_every_iteration(w.id, n.id)
+            and cfg.dominates(n.id, inloop[0].id) for n in cfg.eval_nodes())
+        ok = d0 and climb and cfg.dominates(first[0].id, w.id)
+        why = 'yields the node, then each parent while one exists' if ok else 'first yield is the node: %s, climb loop: %s' % (d0, climb)
+    obs.append(Ob('R-NAV', f.fq, 'dominance() runs from the node through every ancestor to the root', ok, why,
+                  construct='nav-dominance', line=f.node.lineno))
+    return obs, {}
